@@ -4,6 +4,7 @@ package main
 import (
 	"bytes"
 	"crypto/aes"
+	"crypto/cipher"
 	crand "crypto/rand"
 	"encoding/base64"
 	"fmt"
@@ -13,6 +14,7 @@ import (
 	"verifharness/emit"
 
 	"github.com/zitadel/oidc/v3/pkg/crypto"
+	"github.com/zitadel/oidc/v3/pkg/op"
 )
 
 func table(key []byte, blocks [][]byte) string {
@@ -50,12 +52,119 @@ func optBytes(s string, err error) string {
 	return emit.Some(emit.Bytes([]byte(s)))
 }
 
+// ownSeal: the sealed string for a CHOSEN iv, made by the harness with
+// crypto/aes + crypto/cipher and the framing of the model (base64url, no
+// padding, of iv ++ CFB(plain)).
+func ownSeal(key, iv, plain []byte) string {
+	block, err := aes.NewCipher(key)
+	if err != nil {
+		panic(err)
+	}
+	out := make([]byte, 16+len(plain))
+	copy(out, iv)
+	cipher.NewCFBEncrypter(block, iv).XORKeyStream(out[16:], plain)
+	return base64.RawURLEncoding.EncodeToString(out)
+}
+
+// sealCase: seal under a 32-byte key with the chosen iv (the library's
+// EncryptAES reading the iv from crypto/rand, op.NewAESCrypto(key).Encrypt, or
+// the harness's own sealing), open under key and key2 through
+// crypto.DecryptAES or op.NewAESCrypto(k).Decrypt.
+func sealCase(w *emit.Writer, key, key2, iv, plain []byte, via string, own bool, tags []string) {
+	arr := func(k []byte) (a [32]byte) { copy(a[:], k); return }
+	enc := func(p string) (string, error) {
+		if via == "op" {
+			return op.NewAESCrypto(arr(key)).Encrypt(p)
+		}
+		return crypto.EncryptAES(p, string(key))
+	}
+	dec := func(s string, k []byte) (string, error) {
+		if via == "op" {
+			return op.NewAESCrypto(arr(k)).Decrypt(s)
+		}
+		return crypto.DecryptAES(s, string(k))
+	}
+	var ct, d1, d2 string
+	var err, e1, e2 error
+	if own {
+		ct = ownSeal(key, iv, plain)
+	}
+	saved := crand.Reader
+	crand.Reader = bytes.NewReader(iv)
+	p := drv.Catch(func() {
+		if !own {
+			ct, err = enc(string(plain))
+		}
+		crand.Reader = saved
+		if err == nil {
+			d1, e1 = dec(ct, key)
+			d2, e2 = dec(ct, key2)
+		}
+	})
+	crand.Reader = saved
+	var obs string
+	var raw []byte
+	switch {
+	case p != "":
+		obs = "OPanic"
+	case err != nil:
+		obs = emit.Ctor("OSeal", emit.None, emit.None, emit.None)
+	default:
+		raw, _ = base64.RawURLEncoding.DecodeString(ct)
+		obs = emit.Ctor("OSeal", emit.Some(emit.Str(ct)), optBytes(d1, e1), optBytes(d2, e2))
+	}
+	in := emit.Ctor("ISeal", emit.Bytes(key), emit.Bytes(iv), emit.Bytes(plain), emit.Bytes(key2),
+		table(key, append([][]byte{iv}, feedBlocks(raw)...)), table(key2, feedBlocks(raw)))
+	src := "library"
+	if own {
+		src = "harness"
+	}
+	w.Add(emit.Case{Input: in, Observed: obs,
+		Tags:  append([]string{"kind=seal", "keylen=32", "via=" + via, "sealed-by=" + src}, tags...),
+		Human: map[string]any{"key": key, "iv": iv, "plain": plain, "key2": key2, "ct": ct, "panic": p}})
+}
+
+// ivSweep: "for every plaintext and key" includes every iv the random source can
+// deliver: all 256 values of the first iv byte, and ivs whose sealed text
+// begins like something else (a JWT: eyJ..., the JSON texts {} null true []
+// "", a URL, dots and dashes), each opened through both entry points; the
+// keyword ivs also as harness-made sealed strings.
+func ivSweep(w *emit.Writer, r drv.Rand) {
+	mk := func(prefix string) []byte {
+		s := prefix + "AAAAAAAAAAAAAAAAAAAAAA"
+		iv, err := base64.RawURLEncoding.DecodeString(s[:21] + "A")
+		if err != nil || len(iv) != 16 {
+			panic("ivSweep: " + prefix)
+		}
+		return iv
+	}
+	for b := 0; b < 256; b++ {
+		iv := r.Bytes(16)
+		iv[0] = byte(b)
+		key, key2, plain := r.Bytes(32), r.Bytes(32), r.Bytes(8+r.IntN(24))
+		for _, via := range []string{"crypto", "op"} {
+			sealCase(w, key, key2, iv, plain, via, false, []string{"iv=first-byte"})
+		}
+	}
+	for _, pre := range []string{"eyJ", "eyJhbGciOiJSUzI1NiJ9", "eyJ0eXAiOiJKV1Qi", "e30", "bnVsbA", "dHJ1ZQ", "ZmFsc2U", "W10", "IiI", "aHR0cHM6Ly8",
+		"----", "____", "AAAA", "MDAw", "Li4u", "ey", "eyI", "eyK", "fyJ", "eXJ"} {
+		iv := mk(pre)
+		key, key2, plain := r.Bytes(32), r.Bytes(32), []byte(fmt.Sprintf("%x:user-%d", r.Bytes(8), r.IntN(1000)))
+		for _, via := range []string{"crypto", "op"} {
+			sealCase(w, key, key2, iv, plain, via, false, []string{"iv=text-prefix"})
+			sealCase(w, key, key2, iv, plain, via, true, []string{"iv=text-prefix"})
+		}
+	}
+}
+
 func main() {
 	cfg := drv.Parse()
 	r := drv.NewRand(cfg.Seed)
 	w := emit.NewWriter(cfg.Out, "C12_spec", 0, cfg.Only)
 	n := cfg.Count(240, 4000)
 	codecCases(w, r, cfg.Count(520, 10000), !cfg.Quick)
+
+	ivSweep(w, r)
 
 	keyLens := []int{16, 24, 32, 16, 24, 32, 32, 32, 0, 15, 17, 31, 33, 64}
 	for i := 0; i < n; i++ {
